@@ -159,7 +159,10 @@ def gen_one(rng, tier, index):
             'desc': desc, 'decoys': decoys, 'reload': rng.random() < 0.3,
             # before the second load the program binds other handles to some
             # of the resource paths (which ones: by position)
-            'rebind': rng.choice([0, 0, 1, 2, 3])}
+            'rebind': rng.choice([0, 0, 1, 2, 3]),
+            # (dictionary entry point) the lists of the description are
+            # given as one-shot iterables: generators, map objects
+            'one_shot': rng.random() < 0.3}
 
 
 def gen_scale(rng, index):
@@ -382,9 +385,25 @@ def _run(case, desper, fx, res, tmp):
             for ed in concrete.get('entities', []):
                 for cd in ed.get('components', []):
                     cd['type'] = resolve(cd['type'])
+            if case.get('one_shot'):
+                # every access to the handle builds the iterables anew
+                def described():
+                    out = dict(concrete)
+                    if 'processors' in out:
+                        out['processors'] = (p for p in concrete['processors'])
+                    if 'entities' in out:
+                        out['entities'] = map(
+                            lambda ed: dict(ed, components=iter(
+                                ed['components'])) if 'components' in ed
+                            else ed, concrete['entities'])
+                    return out
+                res.tags['one_shot_iterables'].add(True)
+            else:
+                def described():
+                    return concrete
             handle = desper.WorldHandle()
             handle.transform_functions.append(
-                lambda h, w: desper.populate_world_from_dict(w, concrete))
+                lambda h, w: desper.populate_world_from_dict(w, described()))
         fx.FAIL.update(countdown=case.get('flaky'), fired=False)
         try:
             world = handle()
